@@ -18,11 +18,11 @@ fn env_invariants(env: &BDDEnv<usize>, live: &[B]) -> Result<(), String> {
     let nodes = env.nodes.borrow();
     match nodes.get(&BDD::True) {
         Some(t) if t.is_true() => {}
-        _ => return Err("the environment lost its true leaf".into()),
+        _ => return Err("the environment does not contain the true leaf".into()),
     }
     match nodes.get(&BDD::False) {
         Some(t) if t.is_false() => {}
-        _ => return Err("the environment lost its false leaf".into()),
+        _ => return Err("the environment does not contain the false leaf".into()),
     }
     for (k, v) in nodes.iter() {
         if k != v.as_ref() {
@@ -96,7 +96,11 @@ pub fn check_history(opsv: &[Op], st: Option<&mut Stats>) -> Check {
 /// needs such a result again it is rebuilt in the same environment from its truth table
 /// (a user who lets diagrams go out of scope and continues to use the environment).
 pub fn check_history_keep(opsv: &[Op], keep: usize, mut st: Option<&mut Stats>) -> Check {
-    let case = json!({"kind": "history", "ops": ops::ops_to_json(opsv), "keep": keep});
+    // both public constructors give "an environment": half of the histories run in
+    // BDDEnv::default() (a pure function of the case, so a replay takes the same one)
+    let use_default = (opsv.len() + keep) % 2 == 1;
+    let case = json!({"kind": "history", "ops": ops::ops_to_json(opsv), "keep": keep,
+        "env_constructor(derived)": if use_default { "BDDEnv::default()" } else { "BDDEnv::new()" }});
     if !ops::well_formed(opsv) {
         return Err(Violation::new("HARNESS: malformed history", case));
     }
@@ -104,7 +108,9 @@ pub fn check_history_keep(opsv: &[Op], keep: usize, mut st: Option<&mut Stats>) 
     let mut old_reuse = 0u64;
     let r = guarded(&case.clone(), || {
         let ids: Vec<usize> = (0..ops::K).collect();
-        let env: BDDEnv<usize> = BDDEnv::new();
+        let env: BDDEnv<usize> = if use_default { BDDEnv::default() } else { BDDEnv::new() };
+        // before anything is computed the environment already holds the two leaves
+        env_invariants(&env, &[]).map_err(|e| v(format!("in a just-created environment: {}", e)))?;
         let mut pool: Vec<B> = Vec::new();
         let mut alive: Vec<bool> = Vec::new();
         let mut tabs: Vec<TT> = Vec::new();
